@@ -6,7 +6,8 @@ correspondence check).  On every run of the C01 check the method is parsed from
 are located by NON-LOCAL anchors (attribute names, string literals, statement shapes), local names
 are followed through their assignments (so renaming locals / reordering independent statements is
 harmless), the fragments are executed symbolically against the closed table below, and
-`lean/RtcVerif/Gen/CollocKernels.lean` is (re)generated with
+`lean/RtcVerif/Gen/CollocKernels.lean` is (re)generated (a second module, `Gen/CollocPlumbing.lean`,
+is described at the end of the table) with
 
   effParGen        which parameter value a member's residual sees    = C01.effPar
   initRowsGen      argument order / model time of the initial residual = C01.initRowsCode
@@ -53,7 +54,8 @@ Closed table "Python construct -> model term" (anything else is REJECTED: broken
    <L>.append(j)                                                j
    <m> = the variable of the enclosing `for .. in range(self.ensemble_size)` -> m;  literal n -> n
    except KeyError: <history block>; <L>.append(init_der)       histDer (I.hist m j) s.t0
-     the history block is matched as a whole against its pinned shape (locals renamed canonically)
+     the history block is translated path by path (K11 below) into histDerGen, proved equal to histDer in
+     Gen/CollocPlumbing.lean; K6 only checks its interface (this member's history, this variable, the result name)
    Z = ca.MX.zeros((n, 1))                                      List.replicate s.k 0
    Z[P] = X[I] * np.array(N)                                    scatter Z P (zipWith (*) (I.map X) N)
    if len(V) > 0: Z[P'] = V                                     scatter Z P' V   (empty lists: identity)
@@ -77,6 +79,60 @@ Closed table "Python construct -> model term" (anything else is REJECTED: broken
    `if th < 1:` / `if th > 0:` around such a definition         definedness guard; every use must be
                                                                 implied by the branch condition for 0 <= theta <= 1
    t0 = self.initial_time                                       tinit
+
+Second generated module `lean/RtcVerif/Gen/CollocPlumbing.lean` (`gen_colloc_plumbing`, 9 obligations):
+
+  firstHalfGen / secondHalfGen   index lists behind ca.vertcat(X[..], X[..])  = C01.explicitInds / implicitInds (idxOf raw ph)
+  repeatedNominalsGen            np.tile(np.repeat(nominals, n-1), 2)          = C01.repeatedNominals
+  interpolatedFlatGen            the element-wise product                       = C01.interpolatedFlat
+  reshapeShapeGen                the shape handed to reshape                    = (n - 1, 2 * k)
+  stateMatrixGen_entries         entries (i, j), (i, k + j) of the reshape      = nom j * X (index of j at i / i + 1)
+  uRowGen                        slots of accumulation_U in slot order          = C01.uRow
+  histDerGen                     history block of the initial derivatives       = C01.histDer
+  reduceMatvecGen                casadi_helpers.reduce_matvec on one entry      = C01.affVal (linear + constant part)
+  initDersReducedGen_eq_model    the reduced initial derivatives                = C01.initDersCode (of C01_initial_rows)
+
+ K8  index lists  (anchor: the loop over the collocated variable names with two `<L>.extend(<inds>[slice])`)
+   for variable in [v.name() for v in <states + algebraics + control_inputs>]   v ranges over List.range k
+   <inds> = self.__indices_as_lists[<m>][variable]  (<m> = enclosing member loop)   raw v
+   if len(<inds>) != <n>: <inds> = <inds>.copy() | list(<inds>); <inds>.extend(<ph>); <inds> = <inds>[:<n>]
+        with <ph> = [-1] * <n>, <n> = len(self.times())            padCut (raw v) n ph
+        [TRUSTED: X[-1] is an existing position ph; the copy is REQUIRED (extend in place is rejected)]
+   <L>.extend(<inds>[s])   s: [:-1] dropLast, [1:] tail, [a:] drop a, [:b] take b, [:-c] take (length - c)
+   <L> = [] inside the member loop, assigned once               a fresh list per member
+ K9  tiling / product / reshape
+   ca.vertcat(X[A], X[B]) * R  |  R * ca.vertcat(X[A], X[B])     zipWith (*) (A.map X ++ B.map X) R
+        (A first half, B second half; X = ca.MX.sym("X"))        [TRUSTED: vertcat = ++, element-wise product commutes]
+   R = np.tile(np.repeat(N, c), t)                               npTile (npRepeat N c) t
+   N = np.array([self.variable_nominal(v) for v in <collocated names>])   (List.range k).map nom
+   M = M.reshape((r, c))                                         shape (r, c); entry (i, j) = flat[j * r + i]
+        [TRUSTED: CasADi reshape is column-major]
+   M = reduce_matvec(M, self.solver_input)                       value-preserving (K12)
+   M[:, c] = ... only inside the own-time-stamp loop (K7), between the reshape and reduce_matvec
+   index arithmetic: literals, + - *, len(<collocated variables>) k, len(self.times()) n, len(dae constant_inputs) nc
+ K10 mapped input row  (anchor: U = ca.transpose(ca.horzcat(*U)))
+   U = [None] * (...); U = [v for v in U if v.numel() > 0]; U = ca.transpose(ca.horzcat(*U))
+        row i of the result = concatenation over the slots, in slot order, of row i of every block
+   U[0] = M                                                      stateCols s X c.idx i
+   U[<a + b*nc + j>] = ca.MX(<cin>[lo:hi]) in `for j, v in enumerate(self.dae_variables["constant_inputs"])`,
+        v = v.name(), <cin> = <store>[<m>]["constant_inputs"][v]  (List.range s.nc).map (fun j => (slice (c.civ j)).getD i 0)
+   U[<a + b*nc>] = ca.MX(<self.times()>[lo:hi])                  [(slice s.tsL).getD i 0]
+   every other slot (path variables, extra constant inputs) must come after these     c.extraU i
+   slot indices are linear forms in nc and j; the model slots must tile 0, 1 … 1+nc, … contiguously
+ K11 history block  (the inner try of the `except KeyError` branch of K6)
+   h = <history of member m>[variable]; except KeyError -> none     Option.elim h <except value> (fun ks => ...)
+   h.times[i] / h.values[i], i an integer literal (negative: from the end)   pyAt (ks.map (·.1)) i / pyAt (ks.map (·.2)) i
+   len(h.times) == c / len(h.values) == c                            ks.length = c   [TRUSTED: equal lengths]
+   a == b, `or` / `and` (operands in canonical order), t0 = self.initial_time, + - * /, numeric literals
+   if / else with one assignment of the result per branch             if … then … else …
+   assert <test>                                                      ignored: precondition (the series ends at t0)
+ K12 reduce_matvec(e, v)  (module-level function of _internal/casadi_helpers.py), one entry of an affine e
+   ca.reshape(ca.mtimes(Af(ca.DM()), v), e.shape), Af = ca.Function(_, [ca.MX()], [ca.jacobian(e, v)])   lin
+   ca.substitute(e, v, ca.MX.zeros(v.sparsity()))                     const      [TRUSTED: e affine in v: e(v) = lin + const]
+   ca.evalf(const)                                                    const
+   not ca.symvar(const) / const.is_zero()                             sym = false / const = 0
+   return a / return a + b, if (early return)                         nested if-then-else over the paths
+   call sites: ensemble_aggregate["initial_state" | "initial_derivatives"] = reduce_matvec(<itself>, self.solver_input)
 """
 import ast
 import copy
@@ -468,30 +524,6 @@ def _time_value(F, x, before):
 # =================================================================================================
 # K6: initial state and initial derivatives
 
-HISTORY_PIN = (
-    "try:\n    v0 = v1[v2]\n    if v0.times[0] == v3 or len(v0.values) == 1:\n        v4 = 0.0\n    else:\n"
-    "        assert v0.times[-1] == v3\n        v4 = (v0.values[-1] - v0.values[-2]) / (v0.times[-1] - v0.times[-2])\n"
-    "except KeyError:\n    v4 = 0.0"
-)
-
-
-def _canon(node, keep=()):
-    """unparse with local names renamed in order of first occurrence"""
-    node = copy.deepcopy(node)
-    names = {}
-
-    class R(ast.NodeTransformer):
-        def visit_Name(self, n):
-            if n.id in keep:
-                return n
-            names.setdefault(n.id, "v%d" % len(names))
-            return ast.copy_location(ast.Name(id=names[n.id], ctx=n.ctx), n)
-
-    # strip comments is implicit; normalise commutative `or` of the two tests
-    out = ast.unparse(R().visit(node))
-    return out, names
-
-
 def _k6(F):
     loop = None
     for node in ast.walk(F.fn):
@@ -581,20 +613,15 @@ def _k6(F):
     hb = the_try.handlers[0].body
     if not hb or not isinstance(hb[0], ast.Try):
         raise TranslationError("K6: the history block is missing")
-    text, names = _canon(hb[0], keep=("len", "KeyError"))
-    if text != HISTORY_PIN:
-        raise TranslationError("K6: the history block differs from its pinned shape:\n" + text)
-    inv = {v: k for k, v in names.items()}
-    # v1 = history dict of THIS member, v2 = the loop variable, v3 = t0, v4 = init_der
-    if inv["v2"] != vv:
-        raise TranslationError("K6: the history is looked up for `%s`" % inv["v2"])
-    hd = F.the_def(inv["v1"], loop.lineno).value
+    # the history block is translated path by path (K11, emitted into Gen/CollocPlumbing.lean as
+    # histDerGen and proved equal to C01.histDer there); here only its interface is needed
+    k11 = _k11(F, hb[0])
+    if k11["var"] != vv:
+        raise TranslationError("K6: the history is looked up for `%s`" % k11["var"])
+    hd = F.the_def(k11["hist"], loop.lineno).value
     if not (isinstance(hd, ast.Call) and _is_self_attr(hd.func, "history") and len(hd.args) == 1 and member(hd.args[0]) == "m"):
         raise TranslationError("K6: history source " + _u(hd))
-    t0d = F.the_def(inv["v3"], loop.lineno).value
-    if not _is_self_attr(t0d, "initial_time"):
-        raise TranslationError("K6: t0 is " + _u(t0d))
-    env["@init_der"] = inv["v4"]
+    env["@init_der"] = k11["out"]
     for st in hb[1:]:
         if not append(st, "const"):
             raise TranslationError("K6: unsupported statement " + _u(st))
@@ -1212,3 +1239,794 @@ def gen_colloc_kernels(c):
             f.write(text)
         os.replace(tmp, path)
     return [("RtcVerif.Gen.CollocKernels", "RtcVerif.Gen", list(THEOREMS))]
+
+
+# =================================================================================================
+# Second generated module: Gen/CollocPlumbing.lean (index lists, tiling / reshape, mapped input row,
+# history block, reduce_matvec)
+
+HELPERS = ("src", "rtctools", "_internal", "casadi_helpers.py")
+
+
+def _int_lit(node):
+    """integer literal, possibly negated -> int or None"""
+    if isinstance(node, ast.Constant) and isinstance(node.value, int) and not isinstance(node.value, bool):
+        return node.value
+    if isinstance(node, ast.UnaryOp) and isinstance(node.op, ast.USub) and isinstance(node.operand, ast.Constant) \
+            and isinstance(node.operand.value, int) and not isinstance(node.operand.value, bool):
+        return -node.operand.value
+    return None
+
+
+def _is_colloc_vars(F, name):
+    """`name` is the list states + algebraics + control_inputs"""
+    txt = " ".join(_u(d.value, 10 ** 5) for d in F.all_defs(name))
+    return "self.dae_variables['states']" in txt and "self.dae_variables['control_inputs']" in txt \
+        and "self.dae_variables['algebraics']" in txt
+
+
+def _is_colloc_names(F, node, before):
+    """[v.name() for v in <collocated variables>] (through a local)"""
+    if isinstance(node, ast.Name):
+        node = F.the_def(node.id, before).value
+    if not (isinstance(node, ast.ListComp) and len(node.generators) == 1 and not node.generators[0].ifs):
+        return False
+    g = node.generators[0]
+    e = node.elt
+    return isinstance(g.target, ast.Name) and isinstance(g.iter, ast.Name) and _is_colloc_vars(F, g.iter.id) \
+        and isinstance(e, ast.Call) and isinstance(e.func, ast.Attribute) and e.func.attr == "name" and not e.args \
+        and isinstance(e.func.value, ast.Name) and e.func.value.id == g.target.id
+
+
+class _Nat:
+    """index arithmetic over n (= len(self.times())), k, nc; `names` gives the Lean spelling"""
+
+    def __init__(self, F, names, loopvars=None):
+        self.F, self.names, self.loopvars = F, names, loopvars or {}
+
+    def __call__(self, node, before):
+        F = self.F
+        if isinstance(node, ast.Constant) and isinstance(node.value, int) and not isinstance(node.value, bool) \
+                and node.value >= 0:
+            return str(node.value)
+        if isinstance(node, ast.BinOp) and isinstance(node.op, (ast.Add, ast.Mult, ast.Sub)):
+            op = {ast.Add: "+", ast.Mult: "*", ast.Sub: "-"}[type(node.op)]
+            return "(%s %s %s)" % (self(node.left, before), op, self(node.right, before))
+        if isinstance(node, ast.Call) and isinstance(node.func, ast.Name) and node.func.id == "len" and len(node.args) == 1 \
+                and not node.keywords:
+            a = node.args[0]
+            if _dae_vars_key(a) == "constant_inputs":
+                return self.names["nc"]
+            if isinstance(a, ast.Name):
+                if _is_colloc_vars(F, a.id):
+                    return self.names["k"]
+                if _is_colloc_names(F, a, before):
+                    return self.names["k"]
+                d = F.the_def(a.id, before).value
+                if isinstance(d, ast.Call) and _is_self_attr(d.func, "times") and not d.args and not d.keywords:
+                    return self.names["n"]
+        if isinstance(node, ast.Name):
+            if node.id in self.loopvars:
+                return self.loopvars[node.id]
+            return self(F.the_def(node.id, before).value, before)
+        raise TranslationError("unsupported index expression " + _u(node))
+
+
+def _slice_term(base, sl, nat, before, what):
+    """Python slice of a list -> Lean term (table: [:-1] dropLast, [1:] tail, [a:] drop a, [:b] take b,
+    [a:b] (take b).drop a, [0:b] take b, [:-c] take (length - c))"""
+    if not isinstance(sl, ast.Slice) or sl.step is not None:
+        raise TranslationError("%s: unsupported subscript %s" % (what, _u(sl)))
+    lo, hi = sl.lower, sl.upper
+    t = base
+    if hi is not None:
+        v = _int_lit(hi)
+        if v is not None and v < 0:
+            t = "(%s).dropLast" % t if v == -1 else "((%s).take ((%s).length - %d))" % (t, t, -v)
+        else:
+            t = "((%s).take %s)" % (t, nat(hi, before))
+    if lo is not None:
+        v = _int_lit(lo)
+        if v is None or v < 0:
+            if v is not None:
+                raise TranslationError("%s: negative lower bound %s" % (what, _u(sl)))
+            t = "((%s).drop %s)" % (t, nat(lo, before))
+        elif v == 1 and hi is None:
+            t = "(%s).tail" % t
+        elif v > 0:
+            t = "((%s).drop %d)" % (t, v)
+    return t
+
+
+def _member_loop(F, node):
+    m = F.enclosing(node, ast.For)
+    while m is not None and not _range_ensemble(m.iter):
+        m = F.enclosing(m, ast.For)
+    if m is None or not isinstance(m.target, ast.Name):
+        raise TranslationError("not inside `for <m> in range(self.ensemble_size)`: " + _u(node, 60))
+    return m
+
+
+def _is_X(F, node, before):
+    if not isinstance(node, ast.Name):
+        return False
+    xd = F.the_def(node.id, before).value
+    return isinstance(xd, ast.Call) and _u(xd.func) == "ca.MX.sym" and xd.args \
+        and isinstance(xd.args[0], ast.Constant) and xd.args[0].value == "X"
+
+
+# -- K8: index lists --------------------------------------------------------------------------------
+
+
+def _ext_slice(st):
+    """<L>.extend(<name>[slice]) -> (L, name, slice)"""
+    if isinstance(st, ast.Expr) and isinstance(st.value, ast.Call) and isinstance(st.value.func, ast.Attribute) \
+            and st.value.func.attr == "extend" and isinstance(st.value.func.value, ast.Name) and len(st.value.args) == 1 \
+            and not st.value.keywords:
+        a = st.value.args[0]
+        if isinstance(a, ast.Subscript) and isinstance(a.value, ast.Name) and isinstance(a.slice, ast.Slice):
+            return st.value.func.value.id, a.value.id, a.slice
+    return None
+
+
+def _k8(F):
+    loop = None
+    for node in ast.walk(F.fn):
+        if isinstance(node, ast.For) and len([st for st in node.body if _ext_slice(st)]) == 2 \
+                and "__indices_as_lists" in _u(node, 10 ** 6):
+            if loop is not None:
+                raise TranslationError("K8: two candidate index-list loops")
+            loop = node
+    if loop is None:
+        raise TranslationError("K8: the loop filling the explicit / implicit index lists was not found")
+    mloop = _member_loop(F, loop)
+    mvar = mloop.target.id
+    if not (isinstance(loop.target, ast.Name) and _is_colloc_names(F, loop.iter, loop.lineno)) or loop.orelse:
+        raise TranslationError("K8: loop header " + _u(loop.iter))
+    vv = loop.target.id
+    nat = _Nat(F, {"n": "n", "k": "k", "nc": "nc"})
+    env = {}
+    pieces = {}
+
+    def is_n(node):
+        try:
+            return nat(node, loop.lineno) == "n"
+        except TranslationError:
+            return False
+
+    def placeholder(node):
+        d = F.the_def(node.id, loop.lineno).value if isinstance(node, ast.Name) else node
+        if isinstance(d, ast.BinOp) and isinstance(d.op, ast.Mult):
+            for a, b in ((d.left, d.right), (d.right, d.left)):
+                if isinstance(a, ast.List) and len(a.elts) == 1 and _int_lit(a.elts[0]) == -1 and is_n(b):
+                    return True
+        return False
+
+    def padded(st):
+        t = st.test
+        ok = isinstance(t, ast.Compare) and len(t.ops) == 1 and isinstance(t.ops[0], ast.NotEq) and not st.orelse
+        name = None
+        if ok:
+            for a, b in ((t.left, t.comparators[0]), (t.comparators[0], t.left)):
+                if isinstance(a, ast.Call) and isinstance(a.func, ast.Name) and a.func.id == "len" and len(a.args) == 1 \
+                        and isinstance(a.args[0], ast.Name) and a.args[0].id in env and is_n(b):
+                    name = a.args[0].id
+        if name is None:
+            raise TranslationError("K8: unsupported condition " + _u(t))
+        stage = 0  # 0 start, 1 copied, 2 extended, 3 cut
+        for b in st.body:
+            if isinstance(b, ast.Assign) and len(b.targets) == 1 and isinstance(b.targets[0], ast.Name) \
+                    and b.targets[0].id == name:
+                v = b.value
+                if stage == 0 and isinstance(v, ast.Call) and isinstance(v.func, ast.Attribute) and v.func.attr == "copy" \
+                        and isinstance(v.func.value, ast.Name) and v.func.value.id == name and not v.args:
+                    stage = 1
+                    continue
+                if stage == 0 and isinstance(v, ast.Call) and isinstance(v.func, ast.Name) and v.func.id == "list" \
+                        and len(v.args) == 1 and isinstance(v.args[0], ast.Name) and v.args[0].id == name:
+                    stage = 1
+                    continue
+                if stage == 2 and isinstance(v, ast.Subscript) and isinstance(v.value, ast.Name) and v.value.id == name \
+                        and isinstance(v.slice, ast.Slice) and v.slice.lower is None and v.slice.step is None \
+                        and v.slice.upper is not None and is_n(v.slice.upper):
+                    stage = 3
+                    continue
+            if stage == 1 and isinstance(b, ast.Expr) and isinstance(b.value, ast.Call) \
+                    and isinstance(b.value.func, ast.Attribute) and b.value.func.attr == "extend" \
+                    and isinstance(b.value.func.value, ast.Name) and b.value.func.value.id == name \
+                    and len(b.value.args) == 1 and placeholder(b.value.args[0]):
+                stage = 2
+                continue
+            if stage == 0 and isinstance(b, ast.Expr) and "extend" in _u(b):
+                raise TranslationError("K8: the stored index list is extended in place (no copy): " + _u(b))
+            raise TranslationError("K8: unsupported statement in the padding block: " + _u(b))
+        if stage != 3:
+            raise TranslationError("K8: the padding block is not copy / extend(place holder) / [:n]")
+        env[name] = "(padCut %s n ph)" % env[name]
+
+    for st in loop.body:
+        if isinstance(st, ast.Assign) and len(st.targets) == 1 and isinstance(st.targets[0], ast.Name):
+            v = st.value
+            ok = isinstance(v, ast.Subscript) and isinstance(v.slice, ast.Name) and v.slice.id == vv \
+                and isinstance(v.value, ast.Subscript) and _is_self_attr(v.value.value, "__indices_as_lists") \
+                and isinstance(v.value.slice, ast.Name) and v.value.slice.id == mvar
+            if not ok:
+                raise TranslationError("K8: unsupported statement " + _u(st))
+            env[st.targets[0].id] = "(raw v)"
+        elif isinstance(st, ast.If):
+            padded(st)
+        elif _ext_slice(st):
+            L, name, sl = _ext_slice(st)
+            if name not in env:
+                raise TranslationError("K8: `%s` is not the index list of the variable" % name)
+            if L in pieces:
+                raise TranslationError("K8: `%s` is extended twice" % L)
+            pieces[L] = _slice_term(env[name], sl, nat, st.lineno, "K8")
+        else:
+            raise TranslationError("K8: unsupported statement " + _u(st))
+    for L in pieces:
+        d = F.the_def(L, loop.lineno)
+        if not (isinstance(d.value, ast.List) and not d.value.elts) or _member_loop(F, d) is not mloop \
+                or len([x for x in F.all_defs(L)]) != 1:
+            raise TranslationError("K8: `%s` is not a fresh empty list of this ensemble member" % L)
+    return dict(pieces=pieces, mloop=mloop, loop=loop)
+
+
+# -- K9: tiled nominals, product, reshape ------------------------------------------------------------
+
+
+def _k9(F, k8):
+    pieces = k8["pieces"]
+    prod = None
+    for node in ast.walk(k8["mloop"]):
+        if isinstance(node, ast.Assign) and len(node.targets) == 1 and isinstance(node.targets[0], ast.Name) \
+                and isinstance(node.value, ast.BinOp) and isinstance(node.value.op, ast.Mult):
+            for a, b in ((node.value.left, node.value.right), (node.value.right, node.value.left)):
+                if isinstance(a, ast.Call) and _u(a.func) == "ca.vertcat" and len(a.args) == 2 and all(
+                        isinstance(x, ast.Subscript) and isinstance(x.slice, ast.Name) and x.slice.id in pieces
+                        for x in a.args):
+                    if prod is not None:
+                        raise TranslationError("K9: two products of the index lists")
+                    prod = (node, a, b)
+    if prod is None:
+        raise TranslationError("K9: `ca.vertcat(X[explicit], X[implicit]) * repeated_nominals` not found")
+    node, vc, rn = prod
+    if node.lineno < k8["loop"].lineno:
+        raise TranslationError("K9: the product precedes the loop that fills the index lists")
+    for x in vc.args:
+        if not _is_X(F, x.value, node.lineno):
+            raise TranslationError("K9: `%s` is not the decision vector" % _u(x.value))
+    halves = [vc.args[0].slice.id, vc.args[1].slice.id]
+    if halves[0] == halves[1]:
+        raise TranslationError("K9: the same index list is used for both halves")
+    nat = _Nat(F, {"n": "n", "k": "k", "nc": "nc"})
+    rd = F.the_def(rn.id, node.lineno).value if isinstance(rn, ast.Name) else rn
+    ok = isinstance(rd, ast.Call) and _u(rd.func) == "np.tile" and len(rd.args) == 2 and not rd.keywords \
+        and isinstance(rd.args[0], ast.Call) and _u(rd.args[0].func) == "np.repeat" and len(rd.args[0].args) == 2 \
+        and not rd.args[0].keywords
+    if not ok:
+        raise TranslationError("K9: repeated nominals are " + _u(rd))
+    nm = rd.args[0].args[0]
+    nd = F.the_def(nm.id, node.lineno).value if isinstance(nm, ast.Name) else nm
+    if isinstance(nd, ast.Call) and _u(nd.func) == "np.array" and len(nd.args) == 1:
+        nd = nd.args[0]
+    okn = isinstance(nd, ast.ListComp) and len(nd.generators) == 1 and not nd.generators[0].ifs \
+        and isinstance(nd.generators[0].target, ast.Name) and _is_colloc_names(F, nd.generators[0].iter, node.lineno) \
+        and isinstance(nd.elt, ast.Call) and _is_self_attr(nd.elt.func, "variable_nominal") and len(nd.elt.args) == 1 \
+        and isinstance(nd.elt.args[0], ast.Name) and nd.elt.args[0].id == nd.generators[0].target.id
+    if not okn:
+        raise TranslationError("K9: the nominal array is " + _u(nd))
+    tile = _int_lit(rd.args[1])
+    if tile is None or tile < 0:
+        raise TranslationError("K9: tile count " + _u(rd.args[1]))
+    rep = "npTile (npRepeat ((List.range k).map nom) %s) %d" % (nat(rd.args[0].args[1], node.lineno), tile)
+    # the later definitions of the same local: reshape, reduce_matvec
+    flat = node.targets[0].id
+    later = sorted([d for d in F.all_defs(flat) if d is not node], key=lambda d: d.lineno)
+    if len(later) != 2 or later[0].lineno < node.lineno:
+        raise TranslationError("K9: `%s` is assigned %d more times (expected reshape, reduce_matvec)" % (flat, len(later)))
+    rs, rm = later[0].value, later[1].value
+    okr = isinstance(rs, ast.Call) and isinstance(rs.func, ast.Attribute) and rs.func.attr == "reshape" \
+        and isinstance(rs.func.value, ast.Name) and rs.func.value.id == flat and len(rs.args) == 1 \
+        and isinstance(rs.args[0], ast.Tuple) and len(rs.args[0].elts) == 2 and not rs.keywords
+    if not okr:
+        raise TranslationError("K9: unsupported reshape " + _u(rs))
+    shape = "(%s, %s)" % (nat(rs.args[0].elts[0], later[0].lineno), nat(rs.args[0].elts[1], later[0].lineno))
+    okm = isinstance(rm, ast.Call) and isinstance(rm.func, ast.Name) and rm.func.id == "reduce_matvec" and len(rm.args) == 2 \
+        and isinstance(rm.args[0], ast.Name) and rm.args[0].id == flat and _is_self_attr(rm.args[1], "solver_input")
+    if not okm:
+        raise TranslationError("K9: unsupported re-assignment " + _u(rm))
+    # element assignments to the matrix: only the own-time-stamp columns (K7), between reshape and reduce_matvec
+    for n2 in ast.walk(F.fn):
+        if isinstance(n2, (ast.Assign, ast.AugAssign)):
+            tg = n2.targets if isinstance(n2, ast.Assign) else [n2.target]
+            for t in tg:
+                if isinstance(t, ast.Subscript) and isinstance(t.value, ast.Name) and t.value.id == flat:
+                    lp = F.enclosing(n2, ast.For)
+                    if not (later[0].lineno < n2.lineno < later[1].lineno) or lp is None or "interpolate(" not in _u(lp, 10 ** 6) \
+                            or isinstance(n2, ast.AugAssign):
+                        raise TranslationError("K9: the state matrix is modified by " + _u(n2))
+    return dict(first=pieces[halves[0]], second=pieces[halves[1]], rep=rep, shape=shape, flat=flat)
+
+
+# -- K10: the mapped input row ------------------------------------------------------------------------
+
+
+def _lin(node, F, before, loopvars):
+    """slot index -> linear form {'1': a, 'nc': b, 'j': c}"""
+    def add(x, y, s=1):
+        return {key: x.get(key, 0) + s * y.get(key, 0) for key in set(x) | set(y)}
+
+    if isinstance(node, ast.Constant) and isinstance(node.value, int) and not isinstance(node.value, bool):
+        return {"1": node.value}
+    if isinstance(node, ast.Name):
+        if node.id in loopvars:
+            return {"j": 1}
+        return _lin(F.the_def(node.id, before).value, F, before, loopvars)
+    if isinstance(node, ast.Call) and isinstance(node.func, ast.Name) and node.func.id == "len" and len(node.args) == 1 \
+            and _dae_vars_key(node.args[0]) == "constant_inputs":
+        return {"nc": 1}
+    if isinstance(node, ast.BinOp) and isinstance(node.op, ast.Add):
+        return add(_lin(node.left, F, before, loopvars), _lin(node.right, F, before, loopvars))
+    if isinstance(node, ast.BinOp) and isinstance(node.op, ast.Mult):
+        a, b = _lin(node.left, F, before, loopvars), _lin(node.right, F, before, loopvars)
+        for x, y in ((a, b), (b, a)):
+            if set(k_ for k_, v in x.items() if v) <= {"1"}:
+                return {key: x.get("1", 0) * v for key, v in y.items()}
+    raise TranslationError("K10: unsupported slot index " + _u(node))
+
+
+def _k10(F, k9):
+    # anchor: <U> = ca.transpose(ca.horzcat(*<U>))
+    U = fin = None
+    for node in ast.walk(F.fn):
+        if isinstance(node, ast.Assign) and len(node.targets) == 1 and isinstance(node.targets[0], ast.Name):
+            v = node.value
+            if isinstance(v, ast.Call) and _u(v.func) == "ca.transpose" and len(v.args) == 1 \
+                    and isinstance(v.args[0], ast.Call) and _u(v.args[0].func) == "ca.horzcat" and len(v.args[0].args) == 1 \
+                    and isinstance(v.args[0].args[0], ast.Starred) and isinstance(v.args[0].args[0].value, ast.Name) \
+                    and v.args[0].args[0].value.id == node.targets[0].id:
+                if U is not None:
+                    raise TranslationError("K10: two transposed horzcat assemblies")
+                U, fin = node.targets[0].id, node
+    if U is None:
+        raise TranslationError("K10: `U = ca.transpose(ca.horzcat(*U))` not found")
+    defs = sorted(F.all_defs(U), key=lambda d: d.lineno)
+    if len(defs) != 3 or defs[2] is not fin:
+        raise TranslationError("K10: `%s` is assigned %d times" % (U, len(defs)))
+    d0, d1 = defs[0].value, defs[1].value
+    if not (isinstance(d0, ast.BinOp) and isinstance(d0.op, ast.Mult) and isinstance(d0.left, ast.List)
+            and len(d0.left.elts) == 1 and isinstance(d0.left.elts[0], ast.Constant) and d0.left.elts[0].value is None):
+        raise TranslationError("K10: the slot list starts as " + _u(d0))
+    okf = isinstance(d1, ast.ListComp) and len(d1.generators) == 1 and isinstance(d1.generators[0].iter, ast.Name) \
+        and d1.generators[0].iter.id == U and isinstance(d1.elt, ast.Name) and isinstance(d1.generators[0].target, ast.Name) \
+        and d1.elt.id == d1.generators[0].target.id and len(d1.generators[0].ifs) == 1 \
+        and _u(d1.generators[0].ifs[0]) == "%s.numel() > 0" % d1.elt.id
+    if not okf:
+        raise TranslationError("K10: unsupported filter of the slots " + _u(d1))
+    nat = _Nat(F, {"n": "s.n", "k": "s.k", "nc": "s.nc"})
+    segs = []
+    for node in ast.walk(F.fn):
+        if not (isinstance(node, ast.Assign) and len(node.targets) == 1 and isinstance(node.targets[0], ast.Subscript)
+                and isinstance(node.targets[0].value, ast.Name) and node.targets[0].value.id == U):
+            continue
+        if not (defs[0].lineno < node.lineno < defs[1].lineno):
+            raise TranslationError("K10: slot assigned outside the assembly: " + _u(node))
+        lp = F.enclosing(node, ast.For)
+        loopvars = {}
+        cin_loop = False
+        if lp is not None and not _range_ensemble(lp.iter):
+            ok = isinstance(lp.iter, ast.Call) and isinstance(lp.iter.func, ast.Name) and lp.iter.func.id == "enumerate" \
+                and isinstance(lp.target, ast.Tuple) and len(lp.target.elts) == 2 and isinstance(lp.target.elts[0], ast.Name)
+            if not ok:
+                raise TranslationError("K10: unsupported loop around a slot assignment: " + _u(lp.iter))
+            loopvars = {lp.target.elts[0].id: "j"}
+            cin_loop = _dae_vars_key(lp.iter.args[0]) == "constant_inputs"
+        form = _lin(node.targets[0].slice, F, node.lineno, loopvars)
+        form = {k_: v for k_, v in form.items() if v}
+        v = node.value
+        kind = None
+        if isinstance(v, ast.Name) and v.id == k9["flat"]:
+            kind = ("states",)
+        elif isinstance(v, ast.Call) and _u(v.func) == "ca.MX" and len(v.args) == 1 and isinstance(v.args[0], ast.Subscript) \
+                and isinstance(v.args[0].value, ast.Name) and isinstance(v.args[0].slice, ast.Slice):
+            src = v.args[0].value.id
+            sd = F.the_def(src, node.lineno).value
+            if isinstance(sd, ast.Call) and _is_self_attr(sd.func, "times") and not sd.args and not sd.keywords:
+                kind = ("time", "[%s.getD i 0]" % _slice_term("s.tsL", v.args[0].slice, nat, node.lineno, "K10"))
+            elif cin_loop and isinstance(sd, ast.Subscript) and isinstance(sd.value, ast.Name) \
+                    and isinstance(sd.slice, ast.Name) and sd.slice.id == lp.target.elts[1].id:
+                store = F.the_def(sd.value.id, node.lineno).value
+                # <store>[ensemble_member]["constant_inputs"], keyed by the name of the j-th DAE constant input
+                oks = isinstance(store, ast.Subscript) and isinstance(store.slice, ast.Constant) \
+                    and store.slice.value == "constant_inputs" and isinstance(store.value, ast.Subscript) \
+                    and isinstance(store.value.slice, ast.Name) and store.value.slice.id == _member_loop(F, node).target.id
+                nm = [b for b in lp.body if isinstance(b, ast.Assign) and isinstance(b.targets[0], ast.Name)
+                      and b.targets[0].id == lp.target.elts[1].id]
+                okn = len(nm) == 1 and _u(nm[0].value) == "%s.name()" % lp.target.elts[1].id and nm[0].lineno < node.lineno
+                if not (oks and okn):
+                    raise TranslationError("K10: constant input source " + _u(sd))
+                if form.get("j") != 1:
+                    raise TranslationError("K10: constant input %s stored at slot %s" % (lp.target.elts[0].id, _u(node.targets[0].slice)))
+                kind = ("civ", "(List.range s.nc).map (fun j => %s.getD i 0)"
+                        % _slice_term("(c.civ j)", v.args[0].slice, nat, node.lineno, "K10"))
+        if kind is None:
+            kind = ("extra",)
+        if kind[0] != "civ" and kind[0] != "extra" and form.get("j"):
+            raise TranslationError("K10: slot index depends on the loop variable: " + _u(node))
+        segs.append(((form.get("nc", 0), form.get("1", 0)), kind, node))
+    segs.sort(key=lambda x: x[0])
+    # contiguity: slots tile 0, 1 .. 1+nc, 1+nc .. 1+2nc, ...
+    pos = (0, 0)
+    out = []
+    seen_extra = False
+    for start, kind, node in segs:
+        if kind[0] == "extra":
+            seen_extra = True
+            if start < pos:
+                raise TranslationError("K10: slot of %s overlaps the model's part of the row" % _u(node.value, 50))
+            continue
+        if seen_extra:
+            raise TranslationError("K10: a model slot comes after the path / extra slots: " + _u(node, 80))
+        if start != pos:
+            raise TranslationError("K10: slot %s is not contiguous with the previous one" % _u(node.targets[0].slice))
+        pos = (pos[0] + 1, pos[1]) if kind[0] == "civ" else (pos[0], pos[1] + 1)
+        out.append(kind)
+    if [x[0] for x in out].count("states") != 1 or out[0][0] != "states":
+        raise TranslationError("K10: the state matrix is not the first slot")
+    parts = ["stateCols s X c.idx i"]
+    prev = "states"
+    for kind in out[1:]:
+        if kind[0] == "time" and prev == "time":
+            parts[-1] = parts[-1][:-1] + ", " + kind[1][1:]  # consecutive one-entry slots: one list literal
+        else:
+            parts.append(kind[1])
+        prev = kind[0]
+    parts.append("c.extraU i")
+    return "\n    ++ ".join(parts)
+
+
+# -- K11: history block -------------------------------------------------------------------------------
+
+
+def _k11(F, tr):
+    if len(tr.handlers) != 1 or _u(tr.handlers[0].type) != "KeyError" or tr.orelse or tr.finalbody:
+        raise TranslationError("K11: try/except shape of the history block")
+    first = tr.body[0] if tr.body else None
+    ok = isinstance(first, ast.Assign) and len(first.targets) == 1 and isinstance(first.targets[0], ast.Name) \
+        and isinstance(first.value, ast.Subscript) and isinstance(first.value.value, ast.Name) \
+        and isinstance(first.value.slice, ast.Name)
+    if not ok:
+        raise TranslationError("K11: the history block does not start with the lookup of the series")
+    hname, hist, var = first.targets[0].id, first.value.value.id, first.value.slice.id
+    out = [None]
+
+    def col(node):
+        """h.times / h.values -> column"""
+        if isinstance(node, ast.Attribute) and isinstance(node.value, ast.Name) and node.value.id == hname \
+                and node.attr in ("times", "values"):
+            return "(ks.map (·.1))" if node.attr == "times" else "(ks.map (·.2))"
+        return None
+
+    def ex(node):
+        if isinstance(node, ast.Constant) and isinstance(node.value, (int, float)) and not isinstance(node.value, bool):
+            return _rat(node.value)
+        if isinstance(node, ast.Subscript) and col(node.value) and _int_lit(node.slice) is not None:
+            i = _int_lit(node.slice)
+            return "pyAt %s %s" % (col(node.value), "(%d)" % i if i < 0 else "%d" % i)
+        if isinstance(node, ast.Name):
+            d = F.the_def(node.id, tr.lineno).value
+            if _is_self_attr(d, "initial_time"):
+                return "t0"
+            raise TranslationError("K11: unsupported name `%s`" % node.id)
+        if _is_self_attr(node, "initial_time"):
+            return "t0"
+        if isinstance(node, ast.BinOp) and isinstance(node.op, (ast.Add, ast.Sub, ast.Mult, ast.Div)):
+            op = {ast.Add: "+", ast.Sub: "-", ast.Mult: "*", ast.Div: "/"}[type(node.op)]
+
+            def par(x, n):
+                return "(%s)" % x if isinstance(n, ast.BinOp) else x
+
+            return "%s %s %s" % (par(ex(node.left), node.left), op, par(ex(node.right), node.right))
+        raise TranslationError("K11: unsupported expression " + _u(node))
+
+    def test(node):
+        """-> (sort key, term)"""
+        if isinstance(node, ast.BoolOp):
+            parts = sorted((test(v) for v in node.values), key=lambda x: x[0])
+            return (9, "(" + (" ∨ " if isinstance(node.op, ast.Or) else " ∧ ").join(p[1] for p in parts) + ")")
+        if isinstance(node, ast.Compare) and len(node.ops) == 1 and isinstance(node.ops[0], ast.Eq):
+            l, r = node.left, node.comparators[0]
+            for a, b in ((l, r), (r, l)):
+                if isinstance(a, ast.Call) and isinstance(a.func, ast.Name) and a.func.id == "len" and len(a.args) == 1 \
+                        and col(a.args[0]) and _int_lit(b) is not None and _int_lit(b) >= 0:
+                    return (1, "ks.length = %d" % _int_lit(b))
+            tl, tr_ = ex(l), ex(r)
+            if tl == "t0":
+                tl, tr_ = tr_, tl
+            return (0, "%s = %s" % (tl, tr_))
+        raise TranslationError("K11: unsupported condition " + _u(node))
+
+    def block(stmts):
+        val = None
+        for i, st in enumerate(stmts):
+            if isinstance(st, ast.Assert):
+                test(st.test)  # must be expressible; a precondition (the series ends at t0), not a branch
+                continue
+            if isinstance(st, ast.Assign) and len(st.targets) == 1 and isinstance(st.targets[0], ast.Name) and val is None:
+                if out[0] not in (None, st.targets[0].id):
+                    raise TranslationError("K11: two result names `%s`, `%s`" % (out[0], st.targets[0].id))
+                out[0] = st.targets[0].id
+                val = ex(st.value)
+                continue
+            if isinstance(st, ast.If) and val is None and i == len(stmts) - 1 and st.orelse:
+                c = test(st.test)[1]
+                if c.startswith("(") and c.endswith(")"):
+                    c = c[1:-1]
+                return "if %s then %s\n    else %s" % (c, block(st.body), block(st.orelse))
+            raise TranslationError("K11: unsupported statement " + _u(st))
+        if val is None:
+            raise TranslationError("K11: a branch of the history block assigns nothing")
+        return val
+
+    body = block(tr.body[1:])
+    exc = block(tr.handlers[0].body)
+    return dict(hist=hist, var=var, out=out[0], term="Option.elim h %s (fun ks =>\n    %s)" % (exc, body))
+
+
+# -- K12: reduce_matvec -------------------------------------------------------------------------------
+
+
+def _k12():
+    path = os.path.join(REPO, *HELPERS)
+    tree = ast.parse(open(path).read())
+    fn = [n for n in tree.body if isinstance(n, ast.FunctionDef) and n.name == "reduce_matvec"]
+    if len(fn) != 1:
+        raise TranslationError("K12: reduce_matvec not found in casadi_helpers.py")
+    fn = fn[0]
+    args = [a.arg for a in fn.args.args]
+    if len(args) != 2 or fn.args.defaults or fn.args.vararg or fn.args.kwarg:
+        raise TranslationError("K12: signature %r" % args)
+    e, v = args
+
+    def is_name(n, x):
+        return isinstance(n, ast.Name) and n.id == x
+
+    def value(node, env):
+        """-> term"""
+        if isinstance(node, ast.Name) and node.id in env:
+            return env[node.id]
+        if isinstance(node, ast.BinOp) and isinstance(node.op, (ast.Add, ast.Sub)):
+            a, b = value(node.left, env), value(node.right, env)
+            if a.startswith("@") or b.startswith("@"):
+                raise TranslationError("K12: arithmetic on " + _u(node))
+            if isinstance(node.op, ast.Add) and b == "lin":
+                a, b = b, a  # addition of reals commutes: the linear part is written first
+            return "(%s %s %s)" % (a, "+" if isinstance(node.op, ast.Add) else "-", b)
+        if isinstance(node, ast.Call):
+            f = _u(node.func)
+            a = node.args
+            if f == "ca.Function" and len(a) == 3 and isinstance(a[1], ast.List) and len(a[1].elts) == 1 \
+                    and _u(a[1].elts[0]) == "ca.MX()" and isinstance(a[2], ast.List) and len(a[2].elts) == 1 \
+                    and _u(a[2].elts[0]) == "ca.jacobian(%s, %s)" % (e, v):
+                return "@jacfun"
+            if isinstance(node.func, ast.Name) and env.get(node.func.id) == "@jacfun" and len(a) == 1 and _u(a[0]) == "ca.DM()":
+                return "@jac"
+            if f == "ca.reshape" and len(a) == 2 and _u(a[1]) == "%s.shape" % e and isinstance(a[0], ast.Call) \
+                    and _u(a[0].func) == "ca.mtimes" and len(a[0].args) == 2 and value(a[0].args[0], env) == "@jac" \
+                    and is_name(a[0].args[1], v):
+                return "lin"
+            if f == "ca.substitute" and len(a) == 3 and is_name(a[0], e) and is_name(a[1], v) \
+                    and _u(a[2]) in ("ca.MX.zeros(%s.sparsity())" % v, "ca.MX.zeros(%s.shape)" % v,
+                                     "ca.MX.zeros(*%s.shape)" % v):
+                return "const"
+            if f == "ca.evalf" and len(a) == 1 and value(a[0], env) == "const":
+                return "const"  # numeric evaluation keeps the value
+        raise TranslationError("K12: unsupported expression " + _u(node))
+
+    def test(node, env):
+        if isinstance(node, ast.UnaryOp) and isinstance(node.op, ast.Not):
+            t = test(node.operand, env)
+            return {"sym = true": "sym = false", "sym = false": "sym = true"}.get(t) or "¬ (%s)" % t
+        if isinstance(node, ast.Call) and _u(node.func) == "ca.symvar" and len(node.args) == 1 \
+                and value(node.args[0], env) == "const":
+            return "sym = true"
+        if isinstance(node, ast.Call) and isinstance(node.func, ast.Attribute) and node.func.attr == "is_zero" \
+                and not node.args and value(node.func.value, env) == "const":
+            return "const = 0"
+        raise TranslationError("K12: unsupported condition " + _u(node))
+
+    def block(stmts, env):
+        env = dict(env)
+        for i, st in enumerate(stmts):
+            if isinstance(st, ast.Expr) and isinstance(st.value, ast.Constant) and isinstance(st.value.value, str):
+                continue
+            if isinstance(st, ast.Assign) and len(st.targets) == 1 and isinstance(st.targets[0], ast.Name):
+                env[st.targets[0].id] = value(st.value, env)
+                continue
+            if isinstance(st, ast.Return) and st.value is not None:
+                t = value(st.value, env)
+                if t.startswith("@"):
+                    raise TranslationError("K12: returns " + _u(st.value))
+                return t
+            if isinstance(st, ast.If):
+                rest = stmts[i + 1:]
+                return "(if %s then %s else %s)" % (test(st.test, env), block(st.body + rest, env),
+                                                    block(st.orelse + rest, env))
+            raise TranslationError("K12: unsupported statement " + _u(st))
+        raise TranslationError("K12: a path of reduce_matvec does not return")
+
+    return block(fn.body, {})
+
+
+def _k12_calls(F):
+    """the three aggregates that go through reduce_matvec(<same>, self.solver_input)"""
+    found = set()
+    for node in ast.walk(F.fn):
+        if isinstance(node, ast.Assign) and len(node.targets) == 1 and isinstance(node.value, ast.Call) \
+                and isinstance(node.value.func, ast.Name) and node.value.func.id == "reduce_matvec":
+            a = node.value.args
+            if len(a) != 2 or not _is_self_attr(a[1], "solver_input"):
+                raise TranslationError("K12: unsupported call " + _u(node.value))
+            t = node.targets[0]
+            if isinstance(t, ast.Subscript) and isinstance(t.slice, ast.Constant) and _u(t) == _u(a[0]):
+                found.add(t.slice.value)
+    for key in ("initial_state", "initial_derivatives"):
+        if key not in found:
+            raise TranslationError("K12: ensemble_aggregate[%r] does not go through reduce_matvec(<itself>, self.solver_input)" % key)
+
+
+PLUMB_TEMPLATE = """import RtcVerif.Model.C01Plumb
+import RtcVerif.Proofs.C01Plumb
+/-!
+GENERATED on every run of the C01 check by harness/translate_c01.py (`gen_colloc_plumbing`) from
+`CollocatedIntegratedOptimizationProblem.transcribe` in
+/repo/src/rtctools/optimization/collocated_integrated_optimization_problem.py and `reduce_matvec` in
+/repo/src/rtctools/_internal/casadi_helpers.py.  Do not edit.
+-/
+namespace RtcVerif.Gen
+open RtcVerif RtcVerif.Interp RtcVerif.C01
+
+/-! index lists: first / second argument of `ca.vertcat(X[..], X[..])` as the loop fills them -/
+def firstHalfGen (raw : Nat → List Nat) (k n ph : Nat) : List Nat :=
+  (List.range k).flatMap (fun v => %(first)s)
+
+def secondHalfGen (raw : Nat → List Nat) (k n ph : Nat) : List Nat :=
+  (List.range k).flatMap (fun v => %(second)s)
+
+theorem indexListsGen_eq_model (raw : Nat → List Nat) (k n ph : Nat) :
+    firstHalfGen raw k n ph = explicitInds (idxOf raw ph) k n
+    ∧ secondHalfGen raw k n ph = implicitInds (idxOf raw ph) k n :=
+  ⟨explicitIndsCode_eq raw k n ph, implicitIndsCode_eq raw k n ph⟩
+
+/-! tiled nominals, element-wise product, reshape -/
+def repeatedNominalsGen (nom : Nat → Rat) (k n : Nat) : List Rat :=
+  %(rep)s
+
+theorem repeatedNominalsGen_eq_model (nom : Nat → Rat) (k n : Nat) :
+    repeatedNominalsGen nom k n = repeatedNominals nom k n :=
+  repeatedNominalsCode_eq nom k n
+
+def interpolatedFlatGen (X : Vec) (raw : Nat → List Nat) (nom : Nat → Rat) (k n ph : Nat) : List Rat :=
+  List.zipWith (· * ·) ((firstHalfGen raw k n ph).map X ++ (secondHalfGen raw k n ph).map X)
+    (repeatedNominalsGen nom k n)
+
+theorem interpolatedFlatGen_eq_model (X : Vec) (raw : Nat → List Nat) (nom : Nat → Rat) (k n ph : Nat) :
+    interpolatedFlatGen X raw nom k n ph = interpolatedFlat X (idxOf raw ph) nom k n := by
+  unfold interpolatedFlatGen interpolatedFlat
+  rw [(indexListsGen_eq_model raw k n ph).1, (indexListsGen_eq_model raw k n ph).2,
+    repeatedNominalsGen_eq_model, List.map_append]
+
+/-- the shape handed to `reshape` -/
+def reshapeShapeGen (k n : Nat) : Nat × Nat := %(shape)s
+
+set_option linter.unnecessarySeqFocus false in
+theorem reshapeShapeGen_eq_model (k n : Nat) : reshapeShapeGen k n = (n - 1, 2 * k) := by
+  unfold reshapeShapeGen
+  first
+    | rfl
+    | (ext <;> dsimp only <;> try omega)
+
+/-- entry `(i, j)` / `(i, k + j)` of the reshaped matrix: nominal × decision variable of variable `j`
+    at collocation time `i` / `i + 1` (what `C01_rows_eq_theta` uses through `stateEntry`) -/
+theorem stateMatrixGen_entries (X : Vec) (raw : Nat → List Nat) (nom : Nat → Rat) (k n ph i j : Nat)
+    (hj : j < k) (hi : i < n - 1) :
+    reshapeAt (interpolatedFlatGen X raw nom k n ph) (reshapeShapeGen k n).1 i j
+        = nom j * X (idxOf raw ph j i)
+    ∧ reshapeAt (interpolatedFlatGen X raw nom k n ph) (reshapeShapeGen k n).1 i (k + j)
+        = nom j * X (idxOf raw ph j (i + 1)) := by
+  rw [interpolatedFlatGen_eq_model, reshapeShapeGen_eq_model]
+  exact ⟨reshape_explicit X _ nom k n i j hj hi, reshape_implicit X _ nom k n i j hj hi⟩
+
+/-! the mapped input row: slots of `accumulation_U`, in slot order, at step `i` -/
+def uRowGen (s : Sys) (c : Mem) (X : Vec) (i : Nat) : List Rat :=
+  %(urow)s
+
+theorem uRowGen_eq_model (s : Sys) (c : Mem) (X : Vec) (i : Nat) : uRowGen s c X i = uRow s c X i := rfl
+
+/-! history block: initial derivative of a non-differentiated variable -/
+def histDerGen (h : Option Knots) (t0 : Rat) : Rat :=
+  %(hist)s
+
+theorem histDerGen_eq_model (h : Option Knots) (t0 : Rat) : histDerGen h t0 = histDer h t0 :=
+  (show histDerGen h t0 = histDerCode h t0 from rfl).trans (histDerCode_eq h t0)
+
+/-! `reduce_matvec` on one entry of an affine expression: `lin` = (jacobian · v), `const` = the
+    expression at `v = 0`, `sym` = the constant part has free symbols -/
+def reduceMatvecGen (lin const : Rat) (sym : Bool) : Rat :=
+  %(reduce)s
+
+theorem reduceMatvecGen_eq_model (lin const : Rat) (sym : Bool) :
+    reduceMatvecGen lin const sym = affVal lin const := by
+  unfold reduceMatvecGen affVal
+  (repeat' split) <;> simp_all
+
+/-- the initial derivatives handed to the initial residual (`C01_initial_rows`) after
+    `reduce_matvec`: decision variable × nominal, or the history constant (finding F36) -/
+theorem initDersReducedGen_eq_model (I : Inst) (m : Nat) (X : Vec) (hnd : I.sys.nd ≤ I.sys.k) :
+    List.zipWith (fun a b => reduceMatvecGen a b false) (initDersLin I.sys (I.mem m) X)
+        (List.map (fun v => if v < I.sys.nd then 0 else histDerGen (I.hist m v) I.sys.t0) (List.range I.sys.k))
+      = initDersCode I.sys (I.mem m) X := by
+  have h1 : (fun a b => reduceMatvecGen a b false) = affVal := by
+    funext a b
+    exact reduceMatvecGen_eq_model a b false
+  have h2 : List.map (fun v => if v < I.sys.nd then 0 else histDerGen (I.hist m v) I.sys.t0) (List.range I.sys.k)
+      = initDersConst I.sys (I.mem m) := by
+    unfold initDersConst
+    apply List.map_congr_left
+    intro v _
+    rw [histDerGen_eq_model]
+    rfl
+  rw [h1, h2, initDers_affine, initDersCode_eq _ _ _ hnd]
+
+end RtcVerif.Gen
+"""
+
+PLUMB_THEOREMS = ["indexListsGen_eq_model", "repeatedNominalsGen_eq_model", "interpolatedFlatGen_eq_model",
+                  "reshapeShapeGen_eq_model", "stateMatrixGen_entries", "uRowGen_eq_model", "histDerGen_eq_model",
+                  "reduceMatvecGen_eq_model", "initDersReducedGen_eq_model"]
+
+
+def translate_plumbing():
+    path = os.path.join(REPO, *SRC)
+    fn = _find_method(ast.parse(open(path).read()), "CollocatedIntegratedOptimizationProblem", "transcribe")
+    F = Fn(fn)
+    k8 = _k8(F)
+    k9 = _k9(F, k8)
+    urow = _k10(F, k9)
+    # the history block: the inner try of the initial-derivative loop (found as in K6)
+    hb = None
+    for node in ast.walk(F.fn):
+        if isinstance(node, ast.Try) and "__differentiated_states_map" in _u(node, 10 ** 6) and node.handlers \
+                and node.handlers[0].body and isinstance(node.handlers[0].body[0], ast.Try):
+            hb = node.handlers[0].body[0]
+    if hb is None:
+        raise TranslationError("K11: the history block was not found")
+    k11 = _k11(F, hb)
+    red = _k12()
+    _k12_calls(F)
+    return PLUMB_TEMPLATE % dict(first=k9["first"], second=k9["second"], rep=k9["rep"], shape=k9["shape"],
+                                 urow=urow, hist=k11["term"], reduce=red)
+
+
+def gen_colloc_plumbing(c):
+    """(re)generate lean/RtcVerif/Gen/CollocPlumbing.lean; returns the extra obligation spec for c.prove"""
+    gdir = os.path.join(LEAN_DIR, "RtcVerif", "Gen")
+    os.makedirs(gdir, exist_ok=True)
+    path = os.path.join(gdir, "CollocPlumbing.lean")
+    what = "translator: transcribe() index lists / tiling / input row / history block, reduce_matvec"
+    try:
+        text = translate_plumbing()
+    except TranslationError as e:
+        c.broken.append((what, str(e)))
+        return []
+    except (OSError, SyntaxError) as e:
+        c.broken.append((what, "cannot read/parse the source: %s" % e))
+        return []
+    old = open(path).read() if os.path.exists(path) else None
+    if old != text:
+        tmp = path + ".tmp%d" % os.getpid()
+        with open(tmp, "w") as f:
+            f.write(text)
+        os.replace(tmp, path)
+    return [("RtcVerif.Gen.CollocPlumbing", "RtcVerif.Gen", list(PLUMB_THEOREMS))]
